@@ -60,8 +60,6 @@ Fire(x) == IF ~CanFire(x) THEN x
            ELSE IF FaultAtHead(x) THEN Fatal(x, FaultKind(Head(x.srvq).type))
            ELSE Fatal(x, "IoErrorWritingSocket")
 
-\* normal termination is applied as soon as the completion test would succeed
-Settle(x) == IF x.fatal = "" /\ ~x.gone /\ Done(x) THEN Exit(x) ELSE x
 
 -----------------------------------------------------------------------------
 \* what each operation sends and which reply it expects
@@ -158,7 +156,7 @@ TCall ==
            w1 == IF known /\ Sends(e) THEN EnqAll(w, h, OpMsgs(e, ch)) ELSE w
            w2 == IF e.op \in {"listen_confirms", "listen_returns", "listen_blocked"}
                  THEN [w1 EXCEPT !.lq = Put(@, IF e.th = "conn" THEN e.as ELSE e.args.as,
-                                             [q |-> <<>>, tx |-> TRUE, rx |-> TRUE])]
+                                             [q |-> <<>>, tx |-> known /\ ~w.hs[h].dead, rx |-> TRUE])]
                  ELSE w1
        IN /\ w' = w2
           /\ ops' = Put(ops, e.th, e2)
